@@ -247,7 +247,7 @@ class Unit:
            ctx_ok_or=(), external_body=False, props=None, safety_props=None, which=0,
            canary=False, rename=None, mode_exec=True, opens_invariants=None, no_unwind=False,
            sig_rewrites=(), header_attrs=(), assume_termination=False, container=None, bare=False,
-           no_body=False, ctx_sites=(), impl_which=0):
+           no_body=False, ctx_sites=(), impl_which=0, synth=None, tail_proof=None, proof_label=None):
         """cut a function from /repo and splice a contract in.
 
         key: 'Type::name' or 'name'.  impl: regex of the impl header type (default = Type from key).
@@ -261,7 +261,9 @@ class Unit:
         name = key.split('::')[-1]
         within = None
         ty = None
-        if container:
+        if synth:
+            bare = True
+        elif container:
             r = s.cut_item(container[0], container[1])
             within = (r['open'] + 1, r['close'])
             bare = True
@@ -276,10 +278,17 @@ class Unit:
         if inside_fn:
             outer = s.cut_fn(inside_fn, within=within)
             within = (outer['open'] + 1, outer['close'])
-        f = s.cut_decl(name, within=within) if no_body else s.cut_fn(name, within=within, which=which)
-        sig, body = f['sig'], f['body']
-        sig_start_line = f['start_line']
-        body_start_line = s.line_of(f['open'])
+        if synth:
+            # a function synthesised around a region cut from the source (e.g. one match arm): synth = dict(sig, body, line)
+            f = dict(sig=synth['sig'], body=synth['body'], start_line=synth['line'], end_line=synth['line'] + synth['body'].count('\n'))
+            sig, body = f['sig'], f['body']
+            sig_start_line = body_start_line = synth['line']
+            name = re.search(r'\bfn\s+(\w+)', sig).group(1)
+        else:
+            f = s.cut_decl(name, within=within) if no_body else s.cut_fn(name, within=within, which=which)
+            sig, body = f['sig'], f['body']
+            sig_start_line = f['start_line']
+            body_start_line = s.line_of(f['open'])
 
         # ---- signature
         sig = self.common_rewrites(sig)
@@ -309,7 +318,7 @@ class Unit:
         fnkey = key
         info = dict(file=relpath, start_line=sig_start_line, end_line=f['end_line'], props=props,
                     safety_props=list(safety_props) if safety_props is not None else (sorted(set(props + ['C16'])) if props else []),
-                    clauses=[], external_body=(external_body or no_body), loops=0, name=rename or name)
+                    clauses=[], external_body=(external_body or no_body), loops=0, name=rename or name, proof_label=proof_label)
         self.fns[fnkey] = info
 
         def reg(kind, c):
@@ -363,6 +372,8 @@ class Unit:
                 raise CutError(f'{relpath}: fn {key}: proof anchor /{pat}/ no longer matches')
             ls = body.rfind('\n', 0, m.start()) + 1
             inserts.append((ls, text.rstrip('\n') + '\n'))
+        if tail_proof:
+            inserts.append((body.rfind('}'), tail_proof.rstrip('\n') + '\n'))
         inserts.sort(key=lambda x: x[0])
 
         pos = 0
@@ -397,7 +408,7 @@ class Unit:
         if ty:
             self.segments.append(('}\n', None))
         if canary:
-            self._canary(fnkey, sig, requires, body, ty, impl_header, name, rename)
+            self._canary(fnkey, sig, requires, ''.join(x for x, _ in segs), ty, impl_header, name, rename)
         return info
 
     def _canary(self, fnkey, sig, requires, body, ty, impl_header, name, rename):
@@ -430,6 +441,46 @@ class Unit:
 
     def close_block(self):
         self.segments.append(('}\n', None))
+
+    def lift_arm(self, relpath, impl_ty, fn_name, variant, enum_name=None):
+        """cut one `Enum::Variant { bindings } => { body }` arm of `fn fn_name` in `impl impl_ty` and return
+        dict(sig_params, body, line) for a synthesised function whose parameters are the arm's bindings (by reference,
+        types taken from the enum definition in the same source)."""
+        s = self.src(relpath)
+        enum_name = enum_name or impl_ty
+        imp = s.cut_item('impl', re.escape(impl_ty))
+        f = s.cut_fn(fn_name, within=(imp['open'] + 1, imp['close']))
+        mask = s.mask
+        m = re.compile(r'(?<![@\w])\s' + re.escape(enum_name) + r'::' + re.escape(variant) + r'\s*\{').search(mask, f['open'], f['close'])
+        if not m:
+            raise CutError(f'{relpath}: arm {enum_name}::{variant} of {fn_name} not found')
+        # reject `this @ Variant` arms
+        pre = mask[max(0, m.start() - 12):m.start() + 1]
+        if '@' in pre:
+            raise CutError(f'{relpath}: arm {enum_name}::{variant} binds the whole value (this @ ..): not a flat arm')
+        pb = m.end() - 1
+        pe = match_close(mask, pb)
+        binds = [b.strip() for b in s.text[pb + 1:pe].split(',') if b.strip()]
+        arrow = mask.find('=>', pe)
+        ob = mask.find('{', arrow)
+        cb = match_close(mask, ob)
+        body = s.text[ob:cb + 1]
+        en = s.cut_item('enum', enum_name)
+        vm = re.compile(r'\b' + re.escape(variant) + r'\s*\{').search(mask, en['open'], en['close'])
+        if not vm:
+            raise CutError(f'{relpath}: enum variant {enum_name}::{variant} not found')
+        vb = vm.end() - 1
+        ve = match_close(mask, vb)
+        fields = dict()
+        for fm in re.finditer(r'([a-z_][a-z0-9_]*)\s*:\s*([^,]+?)\s*(?:,|$)', s.text[vb + 1:ve].strip(), re.S):
+            fields[fm.group(1)] = re.sub(r'\s+', ' ', fm.group(2))
+        params = []
+        for b in binds:
+            if b not in fields:
+                raise CutError(f'{relpath}: binding {b} of arm {variant} is not a field of the variant')
+            params.append((b, fields[b]))
+        self.drop(f'match arm {enum_name}::{variant} of {impl_ty}::{fn_name} lifted to a function (parameters = the arm bindings, `Ok(())` tail of the enclosing fn appended)')
+        return dict(params=params, body=body, line=s.line_of(ob))
 
     def lemma(self, label, text, props=None):
         """hand-written proof fn (a lemma over the contracts); counted as one obligation."""
